@@ -322,7 +322,7 @@ func (c *Ctx) loopCarried(ph *ssa.Phi) bool {
 // childTerm: context for inlining the callee of a call term (arguments already terms).
 func (c *Ctx) childTerm(t *Term) *Ctx {
 	ch := &Ctx{p: c.p, fn: t.Fn, fi: infoOf(t.Fn), scope: c.scope, bind: map[ssa.Value]*Term{}, depth: c.depth + 1, maxD: c.maxD,
-		site: "inl:" + t.Key(), memo: map[ssa.Value]*Term{}, fmemo: map[ssa.Value]*Formula{}, pc: map[int]*Formula{}, memIn: map[string][]*Term{}, inprg: map[string]bool{}, noInl: c.noInl}
+		site: "inl:" + t.Key(), memo: map[ssa.Value]*Term{}, fmemo: map[ssa.Value]*Formula{}, pc: map[int]*Formula{}, memDef: map[string][]memDefn{}, inprg: map[string]bool{}, noInl: c.noInl}
 	for i, prm := range t.Fn.Params {
 		if i < len(t.Args) {
 			ch.bind[prm] = t.Args[i]
